@@ -219,7 +219,14 @@ func (vc *FuncVC) genOnce() {
 		f.curBlock = r.block
 		env := f.baseEnv(r.state)
 		base := env.lookup
+		rst := r.state
 		env.lookup = func(name string) (TV, bool) {
+			if tv, ok := base(name); ok {
+				return tv, true
+			}
+			return f.freeVar(name, rst) // a captured variable: its value at the return
+		}
+		env.lookupOld = func(name string) (TV, bool) {
 			if tv, ok := base(name); ok {
 				return tv, true
 			}
